@@ -143,6 +143,15 @@ structure Tidy (s : State) : Prop where
   dataDisjoint : ∀ n, AL.contains s.font.data.entries n = true → AL.contains s.font.data.sched n = false
   disk : DiskOk s.disk
 
+/-- the other program has deleted nothing: every layer, glyph, image and data file of `d` is still
+in `d'` (whatever else it did: rewrite, touch, add files, add layers, reorder them, change the
+default layer, delete or create top-level files).  There is no reload method for deletions. -/
+structure Keeps (d d' : Disk) : Prop where
+  layers : ∀ ln, ln ∈ layerNames d → ln ∈ layerNames d'
+  glifs : ∀ ln gn, gn ∈ glifNames d ln → gn ∈ glifNames d' ln
+  images : ∀ n, n ∈ AL.keys d.images → n ∈ AL.keys d'.images
+  data : ∀ n, n ∈ AL.keys d.data → n ∈ AL.keys d'.data
+
 /-- the entry of a layer in the report of a font that is in step except for memory-only glyphs:
 nothing but those glyphs, listed as deleted (finding F8.1) -/
 def memOnlyEntry (s : State) (ln : String) : Option (String × LayerRep) :=
